@@ -16,20 +16,23 @@ Definition canon (l : list rline) : list rline := fold_right rl_ins [] l.
 Definition rline_eqb (a b : rline) : bool :=
   (fst (fst a) =? fst (fst b)) && (snd (fst a) =? snd (fst b)) && opt_eqb str_eqb (snd a) (snd b).
 
-(** group lint: format, stdin?, the library's violations per linted file |-> exit status, report per file *)
-Definition lint_args : Type := (format * bool * list (list viol))%type.
-Definition lint_res : Type := option (N * list (list rline)).
+(** group lint: format, stdin?, configured verbosity, the library's violations per linted file (in argument
+    order; the answer does not depend on the dispatch order: [lint_v_order])
+    |-> exit status, per file the report and the header of the human format *)
+Definition lint_args : Type := (format * bool * Z * list (list viol))%type.
+Definition lint_res : Type := option (N * list (list rline * header)).
+Definition canon_rh (rh : list rline * header) : list rline * header := (canon (fst rh), snd rh).
 Definition model_lint (a : lint_args) : lint_res :=
-  let '(fmt, is_stdin, files) := a in
+  let '(fmt, is_stdin, verb, files) := a in
   if is_stdin then
     match files with
-    | [vs] => match run_lint_stdin fmt vs with Some (c, r) => Some (c, [canon r]) | None => None end
+    | [vs] => let '(c, rh) := run_lint_stdin_v verb fmt vs in Some (c, [canon_rh rh])
     | _ => None
     end
-  else match run_lint fmt files with Some (c, rs) => Some (c, map canon rs) | None => None end.
+  else let '(c, rs) := run_lint_v verb fmt files in Some (c, map canon_rh rs).
 Definition case_t_lint : Type := (N * lint_args * lint_res)%type.
 Definition check_lint (a : lint_args) (exp : lint_res) : bool :=
-  opt_eqb (pair_eqb N.eqb (list_eqb (list_eqb rline_eqb))) (model_lint a) exp.
+  opt_eqb (pair_eqb N.eqb (list_eqb (pair_eqb (list_eqb rline_eqb) (opt_eqb Bool.eqb)))) (model_lint a) exp.
 
 (** group fix: format, linted files (violations found in fix mode; text 1 = the library's fixed text)
     |-> exit status and, for every file of the directory, what it holds afterwards:
